@@ -170,6 +170,23 @@ class _Impl:
                 self.twin = wf if shared else None
                 self.wf = new
                 self.handles = {}
+            elif how in ("copy_drop", "handover"):
+                # an earlier sharer of the dictionary goes away: its dead weak callback stays registered
+                # BEFORE the survivor's callback
+                import gc
+                if how == "copy_drop":
+                    new = copy.copy(wf)
+                else:
+                    new = self.DW(data=wf.data.copy(), extended_properties=wf.extended_properties, copy_extended_properties=False)
+                self.wf = new
+                self.twin = None
+                self.handles = {}
+                del wf
+                gc.collect()
+            elif how == "twin_drop":
+                import gc
+                self.twin = None
+                gc.collect()
             elif how == "twin":
                 # a second waveform deliberately built over the same dictionary
                 self.twin = self.DW(1, self.n, extended_properties=wf.extended_properties, copy_extended_properties=False)
@@ -231,7 +248,7 @@ def _opc(op, pre):
     if k == "lookup":
         return "(NLookup %s)" % _s(op["name"])
     if k == "pickle":
-        return "NPickle" if op["how"] not in ("twin", "sig_copy") else "NOther"
+        return "NPickle" if op["how"] not in ("twin", "sig_copy", "twin_drop") else "NOther"
     raise AssertionError(k)
 
 
@@ -333,7 +350,8 @@ def _rand_op(rng, n, known):
     if k == "lookup":
         name = rng.choice(known) if (known and rng.random() < 0.75) else _mk_name(rng)
         return {"op": k, "name": name}
-    how = rng.choice(["pickle", "pickle", "deepcopy", "copy", "twin", "sig_pickle", "sig_pickle", "sig_deepcopy", "sig_copy"])
+    how = rng.choice(["pickle", "pickle", "deepcopy", "copy", "twin", "sig_pickle", "sig_pickle", "sig_deepcopy", "sig_copy",
+                      "copy_drop", "handover", "twin_drop"])
     op = {"op": k, "how": how}
     if how == "pickle":
         op["proto"] = rng.choice([2, 4, 5])
@@ -362,6 +380,17 @@ def _scripted(rng):
                             [{"op": "write", "i": 0, "v": "w", "via": reader}]):
                     for start in (None, p):
                         out.append({"k": "hist", "n": n, "prop": start, "ops": first + mid + tail + [{"op": "lookup", "name": "w"}, {"op": "lookup", "name": "pad"}]})
+                # an earlier sharer of the dictionary has died; the survivor has a filled cache; the property changes
+                for how in ("copy_drop", "handover"):
+                    for mid in ([{"op": "setprop", "v": q, "how": "setitem"}], [{"op": "delprop", "how": "del"}],
+                                [{"op": "merge", "v": q, "samples": 1, "how": "one", "extra": False}],
+                                [{"op": "write", "i": 0, "v": "w", "via": reader}]):
+                        for start in (None, p):
+                            if start is None and mid[0]["op"] == "delprop":
+                                continue
+                            out.append({"k": "hist", "n": n, "prop": start, "ops":
+                                        [{"op": "pickle", "how": how}] + first + mid
+                                        + [{"op": "read", "i": j, "via": reader} for j in range(n)] + [{"op": "lookup", "name": "w"}]})
                 # a pickled signal read first, then the property changes, never touching owner.signals in between
                 for how in ("sig_pickle", "sig_deepcopy"):
                     for mid in ([{"op": "setprop", "v": q, "how": "setitem"}], [{"op": "delprop", "how": "del"}],
